@@ -137,7 +137,7 @@ func Sleep(d Duration) {
 		time.Sleep(d)
 		return
 	}
-	vrt.PointOp(&vrt.Op{Kind: "time.Sleep"})
+	vrt.SleepPoint()
 }
 
 //go:norace
